@@ -146,6 +146,20 @@ def run(tier):
     oc += [(P, a) for a in (('M', '100', 955), ('F', 'LJ', 1157), ('F', 'HJ', 1010), ('M', '110H', 974))]
     oc += [(S, a) for a in (('M', '100', 10.5), ('F', 'HJ', 1.8), ('M', '800', 120.0), ('M', '800', 120.0, None, True), ('M', '100', 12.5, 52), ('m', 'lj', 6.95), ('M', '80H', 13.5, 60))]
     orderpass.part(rep, oc, 'performance-needed / score call-order pass')
+    # the inverse pair on a thinned grid with the decimal context of the calling thread changed by the host application
+    amb = []
+    a_ = common.bind_repo()
+    amb_rows = sorted({(r["gender"], r["event_code"]) for r in common.mod("athlib.athlon_score")._scoring_table})
+    for g, e in amb_rows:
+        for t in range(1, 1400, 7):
+            amb.append(('athlib.athlon_performance_needed', (g, e, t)))
+            try:
+                p_ = a_.athlon_performance_needed(g, e, t)
+            except Exception:
+                p_ = None
+            if isinstance(p_, (int, float)):
+                amb.append(('athlib.athlon_score', (g, e, p_)))
+    crossapi.ambient_grid(rep, amb, 'ambient decimal context')
     crossapi.part(rep, PID, tier)
     return rep.finish()
 
